@@ -49,6 +49,13 @@ pub fn decomposition_issues(x: &[u8], res: &[NetflowPacket], allowed: &[u16]) ->
                 if !allowed.contains(&v) {
                     issues.push(issue(format!("disallowed-version-reported/v{}", v), format!("element {} has version {} which is not allowed", k, v)));
                 }
+                // "wire lengths as implied by their own headers": a V9 packet holds at most as many flowsets as its
+                // header announces (it stops after `count` flowsets or at the end of the buffer)
+                if let NetflowPacket::V9(v9) = pk {
+                    if v9.flowsets.len() > v9.header.count as usize {
+                        issues.push(issue("v9/more-flowsets-than-the-header-announces", format!("element {} reports {} flowsets, its header announces {}", k, v9.flowsets.len(), v9.header.count)));
+                    }
+                }
                 p += len;
                 if p > x.len() {
                     issues.push(issue(format!("overrun/v{}", v), format!("element {} (v{}) claims {} bytes, ending at {} past the buffer end {}", k, v, len, p, x.len())));
